@@ -103,6 +103,9 @@ def run(tier, seed, replay):
             cases.append({"src": jqgen.join_program(r), "inputs": r.sample(uni, 1 if quick else 2)})
         for _ in range(200 if quick else 3000):
             cases.append({"src": jqgen.rebind_program(r), "inputs": r.sample(uni, 1 if quick else 2)})
+        spare = [jqgen.V(x) for x in ([1, 2, 3], [1, 2, 3, 4, 5], [[1], [2], [3]], {"a": [1, 2, 3]}, ["a", "b", "c", "d", "e", "f"], [1, 2, 3, 4, 5, 6, 7], [1], [])]
+        for _ in range(250 if quick else 4000):
+            cases.append({"src": jqgen.alias_program(r), "inputs": r.sample(spare, 2)})
         # 2c. the witnesses of repaired findings
         cases += [{"src": c["src"], "inputs": c["inputs"]} for c in evalfam.regression_cases()]
         # 3. corpus
